@@ -83,6 +83,8 @@ type Gor struct {
 	isMain  bool
 	blocked bool // waiting for progress by others (retry when scheduled)
 	parked  bool // can never proceed
+	sleeping  bool  // inside vpSleepLong: waits for a timer to fire
+	sleepBase int64 // timers fired when the sleep began
 	yielding bool
 	blockedAt int
 	blockedOnce bool
@@ -166,6 +168,15 @@ type State struct {
 	spawns  map[string]SpawnInfo
 	timeCtr int
 	ghostTerm map[string]*smt.Term
+	timers  []TimerRec // time.NewTimer / time.After: fired only when no goroutine can run (see fireTimer)
+}
+
+// TimerRec is a pending timer: time passes only while every goroutine waits.
+type TimerRec struct {
+	Chan    int   // channel object the timer delivers on
+	Dur     int64 // nanoseconds (-1: not a constant)
+	Fired   bool
+	Stopped bool
 }
 
 func (s *State) clone(newID int) *State {
@@ -187,6 +198,7 @@ func (s *State) clone(newID int) *State {
 		n.others[i] = g.clone()
 	}
 	n.pc = append([]*smt.Term(nil), s.pc...)
+	n.timers = append([]TimerRec(nil), s.timers...)
 	n.pending = nil
 	n.taken = nil
 	n.globals = make(map[*ssa.Global]int, len(s.globals))
